@@ -76,12 +76,22 @@ func calculateCurrentAge(
 	correctedInitialAge := max(apparentAge, correctedAgeValue)
 	residentTime := max(clock.Since(responseTime), 0)
 	return &Age{
-		Value:     correctedInitialAge + residentTime,
+		Value:     AddAge(correctedInitialAge, residentTime),
 		Timestamp: clock.Now(),
 	}
 }
 
 const maxDuration = 1<<63 - 1
+
+// AddAge adds two non-negative ages or durations and saturates at the largest
+// representable duration instead of wrapping around (a Date centuries in the
+// past makes the apparent age that large).
+func AddAge(a, b time.Duration) time.Duration {
+	if sum := a + b; sum >= a {
+		return sum
+	}
+	return maxDuration
+}
 
 // FreshnessCalculator describes the interface implemented by types that can
 // calculate the freshness of a cached response based on request and response
